@@ -20,6 +20,8 @@ import (
 	"os"
 	"path/filepath"
 	"strings"
+
+	"github.com/tmpim/casket/verifhook"
 )
 
 // Parse parses the input just enough to group tokens, in
@@ -229,6 +231,7 @@ func (p *parser) directives() error {
 // other words, call Next() to access the first token that was
 // imported.
 func (p *parser) doImport() error {
+	verifhook.Point("casketfile.doImport")
 	// syntax checks
 	if !p.NextArg() {
 		return p.ArgErr()
